@@ -188,3 +188,23 @@ def connect_body(v: Ver, clean: bool, will: bool, wqos: int, wret: bool, wtopic:
 def sCONNECT(v: Ver, clean: bool, will: bool, wqos: int, wret: bool, wtopic: Str, wmsg: Str,
              hasuser: bool, user: Str, haspass: bool, pw: Str, keepalive: int, cid: Str) -> Bytes:
     return frame(0x10, connect_body(v, clean, will, wqos, wret, wtopic, wmsg, hasuser, user, haspass, pw, keepalive, cid))
+
+
+# ---- framing of a byte stream [2.2]: a packet is its first byte, its remaining-length field and that many bytes
+# first(b): total length of the first complete packet at the head of b, 0 if there is none (yet)
+@spec(opaque=True)
+def first(b: Bytes) -> int:
+    return (0 if len(b) < 2 else
+            (0 if scan(b, 1) >= len(b) else
+             (1 + scan(b, 1) + dl(b[1:]) if len(b) >= 1 + scan(b, 1) + dl(b[1:]) else 0)))
+
+
+# frames(b): the complete packets at the head of b, in order; rem(b): what is left after them
+@spec(decreases='len(b)')
+def frames(b: Bytes) -> ListBytes:
+    return lb() if first(b) <= 0 else lb(b[:first(b)]) + frames(b[first(b):])
+
+
+@spec(decreases='len(b)')
+def rem(b: Bytes) -> Bytes:
+    return b if first(b) <= 0 else rem(b[first(b):])
